@@ -2,6 +2,7 @@ import WM.Model.FSReader
 import WM.Lemmas.FSReader
 import WM.Lemmas.FSInterleave
 import WM.Lemmas.FSRefreshRace
+import WM.Lemmas.FSEager
 import WM.Props.C02
 /-!
 C03 — readers are snapshots; new readers and `refresh()` see exactly the last commit.
@@ -74,6 +75,27 @@ theorem snapshot_partial (fs : FS) (r : Reader) (tr : List Event) (τ : Nat → 
   have h2 := (hok sr hsr p hp).2
   rw [crash_data_of_not_writing _ τ p.2 (by rw [hstable sr hsr p hp]; exact h2)]
   exact hstable sr hsr p hp
+
+/-- **C03.snapshot.**  The reader `ix.reader()` returns — its constructor opens every file of every
+    segment of the TOC (`allFiles`: the compound file of a compound segment; `.trm`, `.pst`, every
+    column file and the vector file of a loose one, after `fix: a reader of a loose segment opens its
+    column and vector files when it is built`) — keeps showing exactly what it showed when it was
+    opened, whatever storage events writers issue afterwards (commits, merges, clean-ups, a writer
+    dying mid-way with arbitrary truncation of its open files).  No `EagerHandles` hypothesis: it is
+    a consequence of how the reader is built (`FS.eagerHandles_fresh`). -/
+theorem snapshot (ix : Name) (fs : FS) (t : Toc) (tr : List Event) (τ : Nat → Nat)
+    (hwf : WF fs) (ht : readToc ix fs = .ok t) (hr : readable fs t = true)
+    (hfr : freshCreates fs tr = true) :
+    ∃ r, openReader allFiles ix fs = .ok r ∧ r.segs = t.segs ∧
+      probe (run fs tr) r = probe fs r ∧ probe (crash (run fs tr) τ) r = probe fs r := by
+  refine ⟨freshReader allFiles fs t, openReader_fresh allFiles ix fs t ht hr, ?_,
+    snapshot_partial fs _ tr τ (eagerHandles_fresh fs t hr) (readerOK_fresh hwf t hr) hfr⟩
+  unfold Reader.segs
+  rw [freshReader_leaves, List.map_map]
+  conv => rhs; rw [← List.map_id t.segs]
+  apply List.map_congr_left
+  intro s _
+  rfl
 
 /-- The full statement (no hypothesis on how the reader opens its files) … -/
 def snapshot_full : Prop :=
@@ -154,6 +176,27 @@ theorem holds_at {ix : Name} {old new : Toc} {tmp : Name} {fs0 : FS} {tr : List 
       rcases hph.1 hp with h | h
       · cases h
       · exact hren h
+
+/-- **C03.snapshot_after_commit.**  `snapshot` composed with `C02.commit`: the reader opened after a
+    completed protocol-following commit is on exactly the new TOC's segments and stays a snapshot
+    under everything later writers do (the next commits, their clean-up passes, a crash). -/
+theorem snapshot_after_commit (ix : Name) (old new : Toc) (tmp : Name) (fs0 : FS)
+    (tr : List Event) (hc : Consistent ix old fs0)
+    (hcc : CompleteCommit ix old new tmp fs0 tr = true)
+    (tr2 : List Event) (τ : Nat → Nat) (hfr : freshCreates (run fs0 tr) tr2 = true) :
+    ∃ r, openReader allFiles ix (run fs0 tr) = .ok r ∧ r.segs = new.segs ∧
+      probe (run (run fs0 tr) tr2) r = probe (run fs0 tr) r ∧
+      probe (crash (run (run fs0 tr) tr2) τ) r = probe (run fs0 tr) r := by
+  obtain ⟨r1, r2, _⟩ := C02.commit ix old new tmp fs0 tr hc hcc
+  have hs : SafeCommitTrace ix old new tmp fs0 tr = true := by
+    unfold CompleteCommit at hcc
+    unfold SafeCommitTrace
+    cases h : chkRun ix old new (some tmp) ⟨fs0, .pre⟩ tr with
+    | none => rw [h] at hcc; cases hcc
+    | some c => rfl
+  have hwf := (holds_at hc hs tr.length).1
+  rw [List.take_length] at hwf
+  exact snapshot ix (run fs0 tr) new tr2 τ hwf r1 r2 hfr
 
 /-- **C03.fresh_interleaved.**  One writer performs a protocol-following commit; the steps of a
     concurrent `ix.reader()` call (TOC read, one file open at a time, retry on a missing file) are
@@ -419,6 +462,11 @@ def tr2 : List Event :=
    .close tmp2, .rename tmp2 toc2n, .delete toc1, .delete segFile]
 
 example : EagerHandles held = true := by decide
+/-- `snapshot` instantiated: the reader opened on generation 1 is unchanged by the optimising
+    commit `tr2` that unlinks its segment file -/
+example : ∃ r, openReader allFiles ix fs1 = .ok r ∧ r.segs = tocNew.segs ∧
+    probe (run fs1 tr2) r = probe fs1 r ∧ probe (crash (run fs1 tr2) fun _ => 0) r = probe fs1 r :=
+  snapshot_after_commit ix tocOld tocNew tmpN fs0 tr consistent0 (by decide) tr2 _ (by decide)
 example : freshNames fs1 tr2 = true := by decide
 example : freshCreates fs1 tr2 = true := by decide
 /-- the held reader still shows generation 1 after its segment file was unlinked … -/
